@@ -21,6 +21,7 @@
 (*   path    request paths / queries     -> {dir} {file} {?q} ..., Path.Matches, basicauth *)
 (*   auth    Authorization header values -> basicauth                              *)
 (*   fcgi    record sequences a FastCGI backend sends -> record.read, streamReader *)
+(*   cgi     CGI header blocks a FastCGI backend sends -> FCGIClient.Request      *)
 (*   hello   a ClientHello with each length field perturbed -> parseRawClientHello *)
 (*   info    parsed-hello shapes          -> looksLike*, tlsHandler.ServeHTTP      *)
 (***************************************************************************)
@@ -30,8 +31,8 @@ CONSTANTS MaxLen,       \* function: kind -> maximal number of tokens
           Modes         \* set of length perturbations used for "hello"
 
 \* bounds the cfgs substitute
-MaxLenQuick    == [link |-> 6, ua |-> 4, tpl |-> 5, host |-> 5, cookie |-> 5, path |-> 5, auth |-> 4, fcgi |-> 2]
-MaxLenThorough == [link |-> 6, ua |-> 5, tpl |-> 5, host |-> 6, cookie |-> 6, path |-> 5, auth |-> 5, fcgi |-> 3]
+MaxLenQuick    == [link |-> 6, ua |-> 4, tpl |-> 5, host |-> 5, cookie |-> 5, path |-> 5, auth |-> 4, fcgi |-> 2, cgi |-> 4]
+MaxLenThorough == [link |-> 6, ua |-> 5, tpl |-> 5, host |-> 6, cookie |-> 6, path |-> 5, auth |-> 5, fcgi |-> 3, cgi |-> 5]
 ModesQuick     == {"ok", "m1", "p1"}             \* claimed length = true length, -1, +1
 ModesThorough  == {"ok", "m1", "p1", "max"}      \* ... or the largest value the field can hold
 
@@ -48,8 +49,11 @@ Alphabet(k) ==
       [] k = "path"   -> {"/", "a", ".", "%", "?", "&", "=", "{", "}"}
       [] k = "auth"   -> {"Basic", " ", "dTpw", "=", ":", "a", "Bearer"}
       [] k = "fcgi"   -> FcgiRecs
+      \* the CGI header block a FastCGI responder writes on stdout (symbolic names: SP HT CRLF and the
+      \* non-ASCII white space NBSP = U+00A0, NEL = U+0085, which textproto does not trim)
+      [] k = "cgi"    -> {"Status:", "SP", "HT", "NBSP", "NEL", "200", "OK", "CRLF", "X-A:", "a"}
       [] k = "hello"  -> Modes
-GrowKinds == {"link", "ua", "tpl", "host", "cookie", "path", "auth", "fcgi"}
+GrowKinds == {"link", "ua", "tpl", "host", "cookie", "path", "auth", "fcgi", "cgi"}
 
 \* ---- ClientHello building blocks (decimal TLS code points) -----------------------
 FirefoxCiphers == <<4865, 4867, 4866, 49195, 49199, 52393, 52392, 49196, 49200, 49162, 49161, 49171, 49172, 51, 57, 47, 53, 10>>
